@@ -1,5 +1,95 @@
-"""C04 final-state oracle (filled in below)."""
+"""C04 final-state oracle: supplied coordinates are preserved; only missing parts are built."""
+import numpy as np
+
+
+def _topo_index(ctx, top):
+    """engine molecule index -> topology molecule index (identity of the objects)"""
+    idx = {}
+    if ctx.eng_molecules is None:
+        return idx
+    for m, mol in enumerate(ctx.eng_molecules):
+        for ti, tm in enumerate(top.molecules):
+            if tm is mol:
+                idx[m] = ti
+                break
+    return idx
 
 
 def check_c04(ctx, job, gro, top):
-    return
+    if job.get("coord_text") is None:
+        return
+    ignored = set(job.get("ignored_instances", []))
+    # (i) atoms supplied at atom level keep exactly their coordinates (file and memory)
+    offset = 0
+    flat_nodes = []
+    for ti, mol in enumerate(top.molecules):
+        for a in mol.molecule.nodes:
+            flat_nodes.append((ti, a))
+    for key, xyz in job.get("supplied_atoms", {}).items():
+        a = int(key)
+        got = gro["atoms"][a]["xyz"]
+        ti, node = flat_nodes[a]
+        clause = "ignored.untouched" if ti in ignored else "atom.kept"
+        if tuple(got) != tuple(xyz):
+            ctx.fail("C04", clause, f"atom {a + 1} supplied at {xyz} is written at {list(got)}",
+                     ignored_present=bool(ignored))
+            break
+        mem = top.molecules[ti].molecule.nodes[node].get("position")
+        if mem is None or not np.array_equal(np.asarray(mem, dtype=float), np.asarray(xyz, dtype=float)):
+            ctx.fail("C04", clause, f"atom {a + 1} supplied at {xyz} holds {mem} in the built system",
+                     ignored_present=bool(ignored))
+            break
+    if job.get("supplied_atoms"):
+        ctx.probe("atoms_supplied")
+    # (ii) residues supplied as centres are backmapped around exactly those centres
+    for key, xyz in job.get("supplied_centres", {}).items():
+        inst, resid = map(int, key.split(":"))
+        mol = top.molecules[inst]
+        node = next((n for n in mol.nodes if mol.nodes[n]["resid"] == resid), None)
+        if node is None:
+            continue
+        nd = mol.nodes[node]
+        pos = np.asarray(nd.get("position"), dtype=float)
+        if not np.array_equal(pos, np.asarray(xyz, dtype=float)):
+            ctx.fail("C04", "centre.kept", f"residue {resid} of molecule {inst} supplied as centre {xyz} "
+                                           f"has position {pos.tolist()}")
+            break
+        if inst in ignored:
+            continue
+        atoms = list(nd["graph"].nodes)
+        X = np.array([mol.molecule.nodes[a]["position"] for a in atoms], dtype=float)
+        if np.linalg.norm(X.mean(axis=0) - pos) > 1e-9:
+            ctx.fail("C04", "centre.kept", f"residue {resid} of molecule {inst}: atoms are centred at "
+                                           f"{X.mean(axis=0).tolist()}, supplied centre is {xyz}")
+            break
+    if job.get("supplied_centres"):
+        ctx.probe("centres_supplied")
+    # (iii) the set of residues that ever received a generated position
+    t_of = _topo_index(ctx, top)
+    added = set()
+    for (m, n) in ctx.added:
+        ti = t_of.get(m)
+        if ti is None:
+            continue
+        added.add((ti, top.molecules[ti].nodes[n]["resid"]))
+    expected = {(i, r) for i, r in job.get("expected_built", []) if i not in ignored}
+    if added != expected:
+        extra = sorted(added - expected)
+        missing = sorted(expected - added)
+        ctx.fail("C04", "built.set", f"generated residues differ from (named for rebuilding + missing from the input): "
+                                     f"unexpectedly generated {extra[:6]}, not generated {missing[:6]}",
+                 ignored_present=bool(ignored))
+    if expected and (job.get("supplied_atoms") or job.get("supplied_centres")):
+        ctx.probe("supplied_and_generated_in_one_system")
+    # (iv) no event ever names an ignored molecule
+    for (m, n) in ctx.touched:
+        ti = t_of.get(m)
+        if ti in ignored:
+            ctx.fail("C04", "ignored.untouched", f"ignored molecule {ti} took part in building (residue {n})",
+                     ignored_present=True)
+            break
+    if ignored:
+        ctx.probe("ignored_molecule_present")
+        last = max(ignored)
+        if last < len(top.molecules) - 1:
+            ctx.probe("ignored_molecule_not_last")
